@@ -48,6 +48,58 @@ def outcome_classes(f, fx):
     return out
 
 
+def rule_merge_key_variant_blind(ctx, fx, config, prop="C03"):
+    """is_merge_key answers from the captured events alone: whichever KeyNode variant the capture produced (the variant depends on
+    node properties such as anchors and tags, not on what the key *is*), the single-event / plain / untagged / `<<` tests are reached.
+    A variant arm that answers `false` without looking at the events makes `&a <<` (or an alias of it) an ordinary key."""
+    mk = fx.fn("de::is_merge_key")
+    ctx.saw(mk)
+    vnames = [v["name"] for v in fx.adt("de::KeyNode")["variants"]]
+
+    def keynode_switches(g):
+        out = []
+        for b in sorted(g.live_blocks):
+            t = g.blocks[b]["term"]
+            if t["k"] != "switch":
+                continue
+            sym = g.sym_operand(t["o"])
+            if sym[0] != "discr":
+                continue
+            root = sym[1]
+            while isinstance(root, tuple) and root[0] in ("deref", "field", "downcast", "ref"):
+                root = root[1]
+            if isinstance(root, tuple) and root[0] in ("arg", "local") and "KeyNode" in g.local_ty(root[1]):
+                out.append((b, t))
+        return out
+    lens = [c["block"] for c in compares(mk) if any("len(" in x for x in (c["rl"], c["rr"]))]
+    n = 0
+    for b, t in keynode_switches(mk):
+        arms = dict(zip(t["vals"], t["tgts"]))
+        for vi, vn in enumerate(vnames):
+            tgt = arms.get(vi, t["tgts"][-1])
+            n += 1
+            ctx.check(bool(lens) and must_pass(mk, [tgt], lens), "TABLE", "%s:TABLE:is_merge_key:variant-blind:%s" % (prop, vn),
+                      "a KeyNode::%s key is judged by its events" % vn,
+                      "is_merge_key answers for a KeyNode::%s without looking at its events: which variant a scalar key is captured as depends on its anchor / tag, so `&a <<: *m` stops being a merge" % vn, config, ctx.where(mk, b))
+    # accessor helpers that hand out the events: every variant hands out its own buffer
+    for cb, ct in mk.calls():
+        g = fx.local_callee(ct)
+        if g is None or "KeyNode" not in g.npath:
+            continue
+        ctx.saw(g)
+        for b, t in keynode_switches(g):
+            arms = dict(zip(t["vals"], t["tgts"]))
+            others = set(t["tgts"])
+            for vi, vn in enumerate(vnames):
+                tgt = arms.get(vi, t["tgts"][-1])
+                region = g.reachable([tgt], avoid=[x for x in others if x != tgt])
+                uses = any(s_["k"] == "assign" and ("@%s.events" % vn) in render(g.sym_rvalue(s_["rv"])) for bb, i, s_ in g.stmts() if bb in region)
+                n += 1
+                ctx.check(uses, "TABLE", "%s:TABLE:is_merge_key:variant-blind:%s" % (prop, vn), "%s hands out the events of a KeyNode::%s" % (g.name, vn),
+                          "%s does not hand out the event buffer of a KeyNode::%s: is_merge_key cannot recognise a `<<` captured as that variant" % (g.npath, vn), config, ctx.where(g, b))
+    ctx.floor("TABLE.merge-key-variants", n, 2, config)
+
+
 def run(ctx):
     for config in ctx.configs:
         fx = ctx.facts(config)
@@ -73,6 +125,7 @@ def run(ctx):
                     if sym[0] == "discr" and render(sym[1]).endswith("style") and plain in t["vals"] and t["tgts"].count(t["tgts"][t["vals"].index(plain)]) == 1:
                         style_plain = True
             return lits, style_plain
+        rule_merge_key_variant_blind(ctx, fx, config)
         l1, p1 = tests(mk)
         l2, p2 = tests(hs)
         ctx.check(l1 == {"<<"}, "TABLE", "C03:TABLE:is_merge_key:text", "merge key text is `<<`", "is_merge_key compares with %s" % sorted(l1), config, ctx.where(mk))
